@@ -12,7 +12,7 @@ import trxd_proto     # noqa: E402
 GB = 148
 CLASSES = dict(v0Rx=trxd_proto.PDUv0Rx, v0Tx=trxd_proto.PDUv0Tx, v1Rx=trxd_proto.PDUv1Rx,
                v1Tx=trxd_proto.PDUv1Tx, v2Rx=trxd_proto.PDUv2Rx, v2Tx=trxd_proto.PDUv2Tx)
-MODLEN = {0: 1, 1: 1, 2: 1, 3: 1, 4: 3, 5: 3, 6: 1, 8: 4, 9: 4, 10: 5, 11: 5, 12: 2, 13: 2}
+MODLEN = {0: 1, 1: 1, 2: 1, 3: 1, 4: 3, 5: 3, 6: 1, 7: 1, 8: 4, 9: 4, 10: 5, 11: 5, 12: 2, 13: 2}
 RENAME = {"soft-bits": "soft", "hard-bits": "hard"}
 BACK = {v: k for k, v in RENAME.items()}
 
